@@ -9,7 +9,7 @@ RULE = ('split(predicate, inner) with predicates whose values are equal but not 
         'ints, floats vs ints vs bools, run-time strings, None and falsy values for whole runs), runs of length 1, a single run, empty keys; 1-3 interleaved outer '
         'keys with reused slots; also under group_by and nested in roll/split (model comparison). The inner pipeline is '
         'tapped at its head. Oracle: segments = maximal runs of == predicate value, contiguous, in order, last one closed at '
-        'key completion, none for an empty key; also with mux errors travelling through split (dropped at the inner head and after split): they neither open nor close a segment. non-trivial = >= 2 runs in some key; distinct = distinct JSON')
+        'key completion, none for an empty key; also with mux errors travelling through split (dropped at the inner head and after split): they neither open nor close a segment; a scale family (hundreds of segments, long segments, hundreds of live keys). non-trivial = >= 2 runs in some key; distinct = distinct JSON')
 ASSUMPTIONS = ['predicate is total']
 PREDS = [['floordiv', 2], ['floordiv', 3], ['isodd'], ['mod', 2], ['id'], ['const', enc(1)],
          ['pair', ['floordiv', 3], ['const', enc('p')]],
@@ -41,6 +41,12 @@ def generate(rng, tier):
             ast = [['split', pred, [['tap', 1], ['ignore'], ['to_list']]], ['ignore']]
             trace = with_errors(rng, trace)
         cases.append({'ast': ast, 'trace': trace, 'pred': pred, 'ctx': ctx})
+    for _ in range({'quick': 8, 'thorough': 200, 'search': 2}[tier]):
+        # scale: hundreds of segments per key, segments of hundreds of items, hundreds of live keys
+        pred = rng.choice([['id'], ['floordiv', 50], ['floordiv', 2], ['mod', 2], ['const', enc(1)], ['floordiv', 300]])
+        inner = rng.choice([[['to_list']], [['count', 1]], [['last']]])
+        cases.append({'ast': [['split', pred, [['tap', 1]] + inner]], 'trace': muxgen.gen_trace_scale(rng), 'pred': pred,
+                      'ctx': 'top', 'scale': True})
     return cases
 
 
